@@ -629,3 +629,105 @@ def GRPPAR(K=0, horizon=6, ops=None, resources=False):
     if resources:
         s['pools'] = {'r': 1}
     return s
+
+
+# ---------------------------------------------------------------------------- rows added after the second seeded round
+
+def GRP_BLOCKED(K=0, horizon=9, ops=None):
+    '''A group path whose input is blocked (scripted) while the machine inside holds a part that the slow device
+    behind the path refuses; the device frees up during the blocked interval; the path is unblocked later.'''
+    devs = [proc('M', [], 1), group('G', ['M']), src('S', 1), path('gp', 'G', ['S']), proc('D', ['gp'], 5), sink('K', ['D'])]
+    if ops is None:
+        ops = [('fail', 'D', 0), ('restore', 'D'), ('block', 'D', True), ('block', 'D', False)]
+    s = spec(f'GRPBLOCKED[K{K}]', devs, horizon, ops, K)
+    s['script'] = [[4, 2, ['block', 'gp', True]], [8, 2, ['block', 'gp', False]]]
+    return s
+
+
+def GRPBATCH(K=0, horizon=5, ops=None):
+    '''Batches (from the source and re-batched) entering a shared group through a group path.'''
+    devs = [proc('M', [], 1), group('G', ['M']), src('S', 1, pattern=[2, None, 3]), path('a', 'G', ['S']),
+            batcher('PB', ['a'], 2), path('b', 'G', ['PB']), sink('K', ['b'])]
+    if ops is None:
+        ops = [('fail', 'M', 0), ('restore', 'M'), ('block', 'b', True), ('block', 'b', False)]
+    return spec(f'GRPBATCH[K{K}]', devs, horizon, ops, K)
+
+
+def EMPTYBATCH(K=0, horizon=5, ops=None):
+    '''Empty batches travelling without any re-batching: source -> machine -> buffer -> sink, and straight to a sink.'''
+    devs = [src('S', 1, pattern=[0, 2, None, 0]), proc('P', ['S'], 0.5), buf('B', ['P'], 3), sink('K', ['B']),
+            src('S2', 1, pattern=[None, 0, 0, 1]), sink('K2', ['S2'])]
+    if ops is None:
+        ops = [('fail', 'P', 0), ('restore', 'P'), ('block', 'K', True), ('block', 'K', False)]
+    return spec(f'EMPTYBATCH[K{K}]', devs, horizon, ops, K)
+
+
+def TWOSRC(K=0, horizon=5, eps=0, delay=0, ops=None):
+    '''Two sources delivering into one buffer at the same instant (eps=0) or a float-noise apart (eps>0, with a
+    minimum delay: the second part must not leave with the first).'''
+    devs = [src('S1', 1), src('S2', 1 + eps), buf('B', ['S1', 'S2'], 4, delay), proc('M', ['B'], 2 if not eps else 0),
+            sink('K', ['M'])]
+    if ops is None:
+        ops = [('block', 'M', True), ('block', 'M', False)]
+    kw = {'positions': ['pre', 'end']} if eps else {}
+    return spec(f'TWOSRC[eps{eps},d{delay},K{K}]', devs, horizon, ops, K, **kw)
+
+
+def DELAY01_LONG(K=0, horizon=6):
+    '''Non-dyadic minimum delay over several time units: release times that round the wrong way must not make the
+    buffer loop inside one instant.'''
+    devs = [src('S', 1), buf('B', ['S'], None, 0.1), sink('K', ['B'])]
+    return spec(f'DELAY01LONG[K{K}]', devs, horizon, [('block', 'K', True), ('block', 'K', False)], K, positions=['pre', 'end'])
+
+
+def GATE_NONE(K=0, horizon=6, ops=None):
+    '''Complementary gates whose predicates answer "no" with None instead of False.'''
+    devs = [src('S', 1, qualities=[1, 0, 0, 1, 0]), proc('P', ['S'], 1),
+            gate('Gge', ['P'], 'q_ge_none'), gate('Glt', ['P'], 'q_lt_none'),
+            proc('A', ['Gge'], 1), sink('K1', ['A']), proc('Bm', ['Glt'], 1), sink('K2', ['Bm'])]
+    if ops is None:
+        ops = [('fail', 'A', 0), ('restore', 'A'), ('block', 'K1', True), ('block', 'K1', False)]
+    return spec(f'GATENONE[K{K}]', devs, horizon, ops, K)
+
+
+def MAINT_SCRIPT(K=0, horizon=8, ops=None, probes=0):
+    '''One machine with a far-future failure scheduled early (so it owns two pending events) and a scripted
+    maintenance shutdown/restore in the first cycle; injected operations on top.'''
+    wo = {'x': [1, 1.5, 3], 'y': [1, 0, 0]}
+    devs = [src('S', 1), proc('M1', ['S'], 2, wo=wo), sink('K', ['M1']), maint(1)]
+    if ops is None:
+        ops = [('shutdown', 'M1'), ('restore', 'M1'), ('wo', 'M1', 'x'), ('fail', 'M1', 0)]
+    s = spec(f'MAINTSCRIPT[K{K}]', devs, horizon, ops, K)
+    s['script'] = [[0.5, 2, ['fail', 'M1', 6.75]], [1.5, 2, ['shutdown', 'M1']], [2.5, 2, ['restore', 'M1']]]
+    s['probes'] = probes
+    return s
+
+
+def MAINT2_SCRIPT(K=0, horizon=8, ops=None):
+    '''Two machines: M2 is under scripted maintenance with a part in process while operations hit M1.'''
+    devs = [src('S', 1), proc('M1', ['S'], 1), buf('B', ['M1'], 2), proc('M2', ['B'], 2), sink('K', ['M2'])]
+    if ops is None:
+        ops = [('fail', 'M1', 0), ('restore', 'M1'), ('shutdown', 'M1')]
+    s = spec(f'MAINT2SCRIPT[K{K}]', devs, horizon, ops, K)
+    s['script'] = [[3, 2, ['shutdown', 'M2']], [5, 2, ['restore', 'M2']]]
+    return s
+
+
+def VALUE0(K=0, horizon=5, ops=None):
+    '''A zero-cycle processor whose finish callback changes value and quality (processing happens inside the
+    acceptance), bookings made directly on the sink, a zero-duration work order with a cost.'''
+    wo = {'z': [0, 0, 2]}
+    devs = [src('S', 1, values=[10, 4]), proc('P0', ['S'], 0, dv=3, dq=-0.5, wo=wo), proc('P1', ['P0'], 1, dv=1),
+            sink('K', ['P1']), maint(1, value=10)]
+    if ops is None:
+        ops = [('addvalue', 'K', 3), ('addvalue', 'K', -1), ('wo', 'P0', 'z'), ('fail', 'P1', 0)]
+    return spec(f'VALUE0[K{K}]', devs, horizon, ops, K)
+
+
+def FANFAIL(K=2, horizon=8, ops=None):
+    '''Parallel machines behind one source where one of them fails while idle and is repaired: from then on it has
+    been waiting for a part since the repair, not since before the failure.'''
+    devs = [src('S', 2), proc('M1', ['S'], 1), proc('M2', ['S'], 1), sink('K', ['M1', 'M2'])]
+    if ops is None:
+        ops = [('fail', 'M1', 0), ('restore', 'M1')]
+    return spec(f'FANFAIL[K{K}]', devs, horizon, ops, K)
